@@ -413,6 +413,70 @@ theorem port_closed_by_deadline
   port_closed_once_fired cfg listener directs relays evs
     (deadline_holds cfg listener directs relays evs hst hnow)
 
+/-- the bookkeeping of `Common._connect`, from the source: `contenders` is a list that only grows
+    by `.append` (one entry per started attempt, nothing keyed by description), and building an
+    endpoint cannot make `_connect` raise between starting attempts and wrapping them (the call is
+    in a `try`, or `endpoint_from_hint_obj` is total on a battery of delicate hostnames) -/
+theorem connect_bookkeeping :
+    Gen.Transit.connect_contenders_is_list = true ∧ Gen.Transit.connect_endpoint_errors_contained = true := by decide
+
+/-- **started ⊆ contenders**: in every reachable world in which `connect()` was called, every
+    contender — the listener, every direct and relay attempt `_connect` started, duplicates of a
+    host:port included — is either still in `_ThereCanBeOnlyOne._remaining` (so its result is
+    listened to, and `_cancel` / the deadline reach it) or has its only-one callbacks attached and
+    has fired.  No attempt runs outside `there_can_be_only_one`. -/
+theorem every_attempt_is_a_contender
+    (hst : (run (initWorld cfg listener directs relays) evs).started = true) (k : Nat) (c : Contender)
+    (hc : (run (initWorld cfg listener directs relays) evs).cont[k]? = some c) :
+    k ∈ (run (initWorld cfg listener directs relays) evs).remaining ∨
+      (c.attached = true ∧ ∃ r x, c.phase = .done r x) := by
+  have hI := WInv_init cfg listener directs relays
+  have hT := TR_run hI (Port_init cfg listener directs relays) (K_init cfg listener directs relays)
+    (TR_init cfg listener directs relays) evs
+  have hk : k < (run (initWorld cfg listener directs relays) evs).cont.length :=
+    (List.getElem?_eq_some_iff.mp hc).1
+  rcases hT.t3 hst k hk with h | ⟨h1, p, h2, h3⟩
+  · exact Or.inl h
+  · refine Or.inr ⟨?_, ?_⟩
+    · unfold attC at h1; rw [hc] at h1; simpa using h1
+    · unfold phC at h2; rw [hc] at h2; simp at h2; subst h2
+      cases hp : c.phase <;> simp [hp, isDone] at h3
+      exact ⟨_, _, rfl⟩
+
+/-- **nothing outlives `connect()`**: once it has fired — with a connection OR with a failure
+    (everything failed, the deadline, no contenders) —
+    * the listening port is stopped;
+    * every contender has fired or was never started (nothing is listening, delayed, connecting or
+      negotiating any more);
+    * on every connection the negotiation is over, and every connection whose negotiation did not
+      succeed is closed (`loseConnection()` called, or `connectionLost` delivered).
+    With `sender_at_most_one_go` / `result_is_negotiated`: after a failed `connect()` nothing is
+    left that could still write `go`. -/
+theorem nothing_outlives_connect
+    (hres : (run (initWorld cfg listener directs relays) evs).result ≠ .pending) :
+    (run (initWorld cfg listener directs relays) evs).portOpen = false ∧
+    (∀ k q, phaseOf (run (initWorld cfg listener directs relays) evs) k = some q →
+      (∃ r x, q = .done r x) ∨ q = .idle) ∧
+    (∀ j c, (run (initWorld cfg listener directs relays) evs).conns j = some c →
+      c.negD ≠ .pending ∧ (c.negD ≠ .ok → 1 ≤ c.lost ∨ c.gone = true)) := by
+  have hI := WInv_init cfg listener directs relays
+  have hT := TR_run hI (Port_init cfg listener directs relays) (K_init cfg listener directs relays)
+    (TR_init cfg listener directs relays) evs
+  have h8 := W8_run hI (by intro i c h; simp [initWorld] at h) evs
+  refine ⟨port_closed_once_fired cfg listener directs relays evs hres, ?_, ?_⟩
+  · intro k q hq
+    rcases hT.t11 hres k q hq with h | h
+    · left; cases q <;> simp [isDone] at h; exact ⟨_, _, rfl⟩
+    · exact Or.inr h
+  · intro j c hc
+    have hnp := TR_no_pending_any hT hres j c hc
+    refine ⟨hnp, ?_⟩
+    intro hok
+    cases hn : c.negD with
+    | pending => exact absurd hn hnp
+    | ok => exact absurd hn hok
+    | fail e => exact h8 j c hc e hn
+
 /-- the deadline statement of the design: once the clock has reached `t0 + 2·TIMEOUT` (`t0` = the
     time `connect()` was called), `connect()` has completed — with a connection or with a failure —
     whatever else happened in between, in any order. -/
@@ -540,6 +604,28 @@ theorem same_link (hk : SharedKey cfgS cfgR)
       subst this
       exact absurd (hL'j.symm.trans hLb) hjb
     | fail e => exact h8r j cj hcj e hn
+
+/-- `nothing_outlives_connect` holds for each side of every two-sided run (each side of a `drun` is
+    a one-sided `run`): a side whose `connect()` has fired — also with a failure, also while the
+    other side is still trying — has its port stopped, no attempt running, every connection that
+    was not selected closed. -/
+theorem duo_nothing_outlives_connect :
+    ((drun (initDuo cfgS cfgR ls ds rs lr dr rr) evs).s.result ≠ .pending →
+      (drun (initDuo cfgS cfgR ls ds rs lr dr rr) evs).s.portOpen = false ∧
+      (∀ k q, phaseOf (drun (initDuo cfgS cfgR ls ds rs lr dr rr) evs).s k = some q → (∃ r x, q = .done r x) ∨ q = .idle) ∧
+      (∀ j c, (drun (initDuo cfgS cfgR ls ds rs lr dr rr) evs).s.conns j = some c →
+        c.negD ≠ .pending ∧ (c.negD ≠ .ok → 1 ≤ c.lost ∨ c.gone = true))) ∧
+    ((drun (initDuo cfgS cfgR ls ds rs lr dr rr) evs).r.result ≠ .pending →
+      (drun (initDuo cfgS cfgR ls ds rs lr dr rr) evs).r.portOpen = false ∧
+      (∀ k q, phaseOf (drun (initDuo cfgS cfgR ls ds rs lr dr rr) evs).r k = some q → (∃ r x, q = .done r x) ∨ q = .idle) ∧
+      (∀ j c, (drun (initDuo cfgS cfgR ls ds rs lr dr rr) evs).r.conns j = some c →
+        c.negD ≠ .pending ∧ (c.negD ≠ .ok → 1 ≤ c.lost ∨ c.gone = true))) := by
+  obtain ⟨⟨es, hes⟩, ⟨er, her⟩⟩ := drun_sides (initDuo cfgS cfgR ls ds rs lr dr rr) evs
+  have hes' : (drun (initDuo cfgS cfgR ls ds rs lr dr rr) evs).s = run (initWorld cfgS ls ds rs) es := hes
+  have her' : (drun (initDuo cfgS cfgR ls ds rs lr dr rr) evs).r = run (initWorld cfgR lr dr rr) er := her
+  constructor
+  · rw [hes']; exact nothing_outlives_connect cfgS ls ds rs es
+  · rw [her']; exact nothing_outlives_connect cfgR lr dr rr er
 
 /-- the ingredient of `same_link` that was only judged by the oracle before: `connect()` returns
     only a connection whose negotiation succeeded (so, for the Sender, `_winner`) -/
